@@ -105,7 +105,46 @@ def c08Violation (revs : List ReadEv) (wevs : List WriteEv) (proc : Proc) (maxSi
         else none
       | _, _ => none
 
+/-- The command route: `jl` fed with the reader's bytes on its standard input (or with an unreadable one when
+    the script is a lone error). Its processor logs every error it is handed and carries on, so from outside one
+    sees the bytes on standard output, the number of logged line failures, whether the streamer's own failure
+    was logged, and the exit status:  `jl exit=<n> nerr=<k> failed=<k> out=<hex>`. -/
+def runStreamJl (prop tiS toS readerS extS implS : String) : Result :=
+  let env : Env := ⟨genTables, parseExt extS⟩
+  match tmplOf env tiS, tmplOf env toS, parseReader readerS with
+  | some ti, some to, some revs =>
+    let fields := (toks implS).filterMap fun t => match t.splitOn "=" with | [k, v] => some (k, v) | _ => none
+    let get (k : String) : Option String := (fields.find? fun kv => kv.1 == k).map Prod.snd
+    match (get "exit").bind String.toNat?, (get "nerr").bind String.toNat?, (get "failed").bind String.toNat?,
+        (get "out").bind unhexTok with
+    | some exit, some nerr, some failed, some out =>
+      let cfg : Cfg := ⟨env, ti, to, .tolerant, 65536, 10485760⟩
+      let (bytes, readerFails) := readerBytes revs
+      let reported := exit != 0 || nerr > 0 || failed > 0
+      let p : Option String :=
+        if prop != "C08" then none
+        else if readerFails && !reported then some "reader-failure-swallowed"
+        else if !readerFails && hasOverLongLine cfg.maxSize bytes && !reported then some "oversize-line-swallowed"
+        else none
+      match Stream.stream cfg revs [] with
+      | .ok mobs =>
+        let mOut := mobs.writes.foldl (· ++ ·) []
+        let mErr := (mobs.calls.filter fun c => c.2.isSome).length
+        let d := exit != 0 || mOut != out || mErr != nerr
+        (match d, p with
+         | false, none => ⟨"S", ""⟩
+         | true, none => ⟨"D", s!"stream via jl r=[{readerS}] impl [{implS}] model [nerr={mErr} out={hexTok mOut}]"⟩
+         | _, some c => ⟨(if d then "D" else "") ++ "P",
+             s!"stream via jl ti=[{tiS}] to=[{toS}] r=[{readerS}] impl [{implS}] model [nerr={mErr} out={hexTok mOut}] violates {prop}: key={c}"⟩)
+      | _ =>
+        (match p with
+         | some c => ⟨"P", s!"stream via jl ti=[{tiS}] to=[{toS}] r=[{readerS}] impl [{implS}] model [abstains] violates {prop}: key={c}"⟩
+         | none => ⟨"X", "model abstains"⟩)
+    | _, _, _, _ => ⟨"B", s!"cannot parse jl observation: {implS}"⟩
+  | _, _, _ => ⟨"B", "cannot parse stream case"⟩
+
 def runStream (prop tiS toS procS readerS writerS extS implS : String) : Result :=
+  if procS == "jl" then runStreamJl prop tiS toS readerS extS implS else
   let env : Env := ⟨genTables, parseExt extS⟩
   match tmplOf env tiS, tmplOf env toS, parseProc procS, parseReader readerS, parseWriter writerS with
   | some ti, some to, some proc, some revs, some wevs =>
@@ -124,7 +163,15 @@ def runStream (prop tiS toS procS readerS writerS extS implS : String) : Result 
       let ms := showObs mobs
       let d := ms != implS
       let p : Option String :=
-        if prop == "C08" then c08Violation revs wevs proc cfg.maxSize ret calls writes
+        if prop == "C08" then
+          (c08Violation revs wevs proc cfg.maxSize ret calls writes).orElse fun _ =>
+            -- without any fault: success is returned only after every line has had its outcome
+            let (bytes, fails) := readerBytes revs
+            if fails || !wevs.isEmpty || ret.isSome || hasOverLongLine cfg.maxSize bytes then none
+            else
+              match Stream.specObs cfg bytes with
+              | .ok sobs => if sobs.writes == writes then none else some "unprocessed-input-discarded"
+              | _ => none
         else if prop == "C07" then
           let (bytes, fails) := readerBytes revs
           if fails || !wevs.isEmpty then none
